@@ -105,3 +105,21 @@ M("C07", "extract-returns-view-when-all", [(NU, "    shape = arr.shape\n    new_
   "extracting every field returns the input itself, not a new array")
 M("C07", "control-reorder-loop-rewritten", [(NU, "        if name not in new_names:\n            new_names.append(name)\n            new_descr.append(original_descr[i])",
                                              "        if new_names.count(name) == 0:\n            new_names.append(name)\n            new_descr.append(original_descr[i])")], control=True)
+
+# ---- C16
+M("C16", "newbyteorder-skipped-for-subarray-fields", [(NU, "    outdata = array.byteswap(inplace)\n    if not keep_dtype:\n        outdata.dtype = outdata.dtype.newbyteorder()",
+   "    outdata = array.byteswap(inplace)\n    if not keep_dtype:\n        if outdata.dtype.names is not None and any(outdata.dtype[n].shape != () for n in outdata.dtype.names):\n            pass\n        else:\n            outdata.dtype = outdata.dtype.newbyteorder()")],
+  "arrays with sub-array fields are swapped but keep their declared order")
+M("C16", "to_native-no-copy-when-noswap", [(NU, "    if doswap:\n        outdata = byteswap(array, inplace, keep_dtype=keep_dtype)\n    else:\n        if inplace:\n            outdata = array\n        else:\n            outdata = array.copy()\n\n    return outdata\n\n\ndef descr_to_native",
+   "    if doswap:\n        outdata = byteswap(array, inplace, keep_dtype=keep_dtype)\n    else:\n        outdata = array\n\n    return outdata\n\n\ndef descr_to_native")],
+  "inplace=False returns the input itself when nothing has to be swapped")
+M("C16", "is_big-ignores-equals", [(NU, "    return (byteorder == \">\") or (machine_big and byteorder == \"=\")", "    return (byteorder == \">\") or (machine_big and byteorder == \"<\")")],
+  "harmless on little-endian hosts: negative control here", control=True)
+M("C16", "is_little-ignores-native", [(NU, "    return (byteorder == \"<\") or (machine_little and byteorder == \"=\")", "    return (byteorder == \"<\")")],
+  "native ('=') arrays are no longer recognised as little endian")
+M("C16", "to_native-looks-at-first-field-only", [(NU, "        for fname in array.dtype.names:\n            if is_little_endian(array[fname]):\n                data_little = True\n                break\n\n    if (machine_little",
+   "        for fname in array.dtype.names[:1]:\n            if is_little_endian(array[fname]):\n                data_little = True\n                break\n\n    if (machine_little")],
+  "native arrays whose first field is a string are swapped")
+M("C16", "descr-strips-two-chars-for-U", [(NU, "        nd[1] = nd[1][1:]\n", "        nd[1] = nd[1][1:] if nd[1][1] != 'U' else 'S' + nd[1][2:]\n")])
+M("C16", "byteswap-inplace-ignored-for-0d", [(NU, "    outdata = array.byteswap(inplace)\n", "    outdata = array.byteswap(inplace and array.ndim > 0)\n")],
+  "0-d arrays are never converted in place")
